@@ -3,7 +3,7 @@
  "name": "block_rehash",
  "props": ["C15"],
  "level": "U/iter",
- "tier": "wip",
+ "tier": "quick",
  "harness": "h_block_rehash",
  "enforce": ["ext2fs_ext_attr_block_rehash"],
  "loop_contracts": true,
@@ -22,12 +22,12 @@
  "name": "block_rehash_small",
  "props": ["C15"],
  "level": "B(3)",
- "tier": "wip",
+ "tier": "quick",
  "harness": "h_block_rehash_small",
  "unwind": 5,
  "unwind_reason": "bounded cross-check: at most 3 entries (names of 0..8 bytes) in a 128-byte buffer; loops unwound, unwinding assertions on",
  "functions": ["lib/ext2fs/ext_attr.c:ext2fs_ext_attr_block_rehash"],
- "assumes": ["BOUNDED: <= 3 entries, terminated entry table inside a 128-byte buffer"],
+ "assumes": ["BOUNDED: <= 3 entries, terminated entry table inside a 128-byte buffer", "the CHECK that the lockstep ghost fold agrees needs the ghost step of the hook (hooks-pending/xat.diff); without it only the comparison with the kernel transcription is meaningful"],
  "native": true
 }
 */
